@@ -228,6 +228,21 @@ func c06Build(template string) (*c06Prog, bool) {
 			uA.dead = true
 			w("script %s {\n  poryswitch(%s) {\n    %s: %s\n    _: %s\n  }\n  %s\n}", s.Placeholder(), key.Placeholder(), other.Placeholder(), lineA, lineB, lineC)
 		}
+	case "poryswitch-selected-without-text":
+		s, o := script()
+		key := p.atoms.New(ClsIdent, "swkey", "")
+		val := p.atoms.New(ClsIdent, "swval", "swvals", "_")
+		p.sw = append(p.sw, [2]Tok{A(key), A(val)})
+		plain := p.newCmd()
+		uB, tB := p.text(o, "", nil)
+		lineB := p.cmdWith(uB, "@"+tB)
+		uB.dead = true
+		uM, mM := p.moves(o, 1)
+		lineM := p.cmdWith(uM, "@"+mM)
+		uM.dead = true
+		uC, tC := p.text(o, "", nil)
+		lineC := p.cmdWith(uC, "@"+tC)
+		w("script %s {\n  poryswitch(%s) {\n    %s: %s\n    _ {\n      %s\n      %s\n    }\n  }\n  %s\n}", s.Placeholder(), key.Placeholder(), val.Placeholder(), plain.Placeholder(), lineB, lineM, lineC)
 	case "mapscripts":
 		m := p.atoms.New(ClsUserName, "map", "names")
 		ty1 := p.atoms.New(ClsIdent, "mstype", "mstypes")
@@ -503,7 +518,7 @@ func c06ClashCase(kind string) *Case {
 }
 
 var c06Templates = []string{"one", "second-arg", "two", "types", "same-content-different-type", "two-scripts", "control-flow", "switch",
-	"autovar-chain", "autovar-group", "poryswitch-selected", "poryswitch-fallback", "mapscripts", "moves-two", "moves-and-text"}
+	"autovar-chain", "autovar-group", "poryswitch-selected", "poryswitch-fallback", "poryswitch-selected-without-text", "mapscripts", "moves-two", "moves-and-text"}
 
 // RunC06 is the check of property C06.
 func RunC06(env *Env, rep *Report) {
